@@ -38,6 +38,31 @@ CHECKS = {
             '1..8 threads, cold and warm cache): bit equality with the reference package, symmetry / PR / '
             'orthonormality / reversal identities, equality with the bytes on disk, idempotence, read-only '
             'cached arrays. The finite table space is enumerated completely.', '5/C18'),
+    'C05': ('adjoint runtime monitor: autograd Jacobian from one batched backward vs operator extracted from forward impulse executions; Function-level VJP monitor on every backward invocation; all requires-grad patterns',
+            'The operator of each DWT module configuration is extracted from forward executions on impulses (no code '
+            'shared with the backward); the full Jacobian from one batched backward execution at two points and every '
+            '2^(J+1)-1 requires-grad pattern of the inverse are compared with it; every AFB*/SFB*.backward invocation is '
+            'compared with the native VJP of the Function forward body. Three mechanisms are open known findings with '
+            'localisation checks that still report other backward defects in those modes.', '5/C05'),
+    'C06': ('adjoint runtime monitor for the DTCWT: Jacobian from one batched backward vs operator from impulse executions over layouts/masks/subsets; Function-level adjoint-identity monitor',
+            'As C05 for DTCWTForward/DTCWTInverse over the 20 filter pairs, all 120 (o_dim,ri_dim) layouts, skip and '
+            'include_scale masks (cotangents fed into every returned lowpass) and every requires-grad pattern; every '
+            'FWD_J*/INV_J*.backward invocation is checked with the adjoint identity <Lx,g>=<x,backward(g)> using the '
+            'Function forward body without autograd.', '5/C06'),
+    'C08': ('differential runtime monitor vs NumPy dtcwt + defining formulas (independent reference model), shape and non-negativity postconditions',
+            'ScatLayer/ScatLayerj2 outputs for 5 filter families (band-pass included), 6 bias values incl. 0, colour '
+            'on/off, sizes 2..34 incl. odd / non-multiple-of-8, 8 input classes are compared with the composition of '
+            'the reference DTCWT and the scattering formulas; documented shapes and non-negative magnitudes checked.', '5/C08'),
+    'C09': ('gradient runtime monitor: back-propagated x.grad vs native autograd of the forward body and vs central finite differences; finiteness; SmoothMagFn analytic gradient for all grad subsets',
+            'x.grad after Z.backward(g) is compared with torch native autograd of the layer forward body (no '
+            'hand-written backward) and, for bias >= 1e-2, with float64 central differences along random directions; '
+            'all gradients must be finite for bias>0 including the all-zero image; SmoothMagFn is checked against '
+            'x/r, y/r for every requires-grad subset.', '5/C09'),
+    'C17': ('operator-algebra runtime monitor on operators extracted from impulse executions (A^T A, A A^T, S-A^T), energy, backward==inverse',
+            'For all 75 orthogonal wavelets, periodization, J<=3, every level even and >= the filter length: the '
+            'extracted analysis operator is orthogonal, the extracted synthesis operator is its transpose, energy and '
+            'inner products are preserved on dense inputs and back-propagation equals the inverse transform; '
+            'tolerance scaled by the orthonormality defect of the pywt taps.', '5/C17'),
     'C10': ('differential runtime monitor vs pywt.waverec/waverec2 on one-hot coefficient batches, None-level metamorphic check',
             'Every observed DWT1DInverse/DWTInverse call on arbitrary (not in range) pyramids is compared with '
             'PyWavelets; one-hot coefficient batches give the whole synthesis operator; None levels are '
